@@ -27,6 +27,7 @@ def jobs(tier):
         mk('C04', 'child/depth3', S.child('await', k=0, depth=3, actor=False), witnesses=W),
         mk('C04', 'deep_ff_chain', S.deep_ff_chain(), witnesses=W),
         mk('C04', 'child/await/raising_chained', S.child('await', k=0, raising='child_chained', actor=False), witnesses=W),
+        mk('C04', 'many_buses_backlog', S.many_buses_backlog(), witnesses=W),
     ]
     if tier == 'thorough':
         out += [
